@@ -350,10 +350,9 @@ func referenceAsTypeOf(block *hcl.Block, rngPtr *hcl.Range, bSchema *schema.Bloc
 		ref.Description = bSchema.Body.Description
 	}
 
-	attrs, diags := block.Body.JustAttributes()
-	if diags.HasErrors() {
-		return reference.Targets{ref}
-	}
+	// the attributes are returned even if the body also
+	// holds blocks, which JustAttributes reports as an error
+	attrs, _ := block.Body.JustAttributes()
 
 	if bSchema.Address.AsTypeOf.AttributeExpr != "" {
 		typeDecl, ok := asTypeOfAttrExpr(attrs, bSchema)
